@@ -32,6 +32,7 @@ var utInfos = []utInfo{
 	{ifs: []int{0, 1}, pp: true}, {ifs: []int{1}, pp: true},
 	{ifs: []int{0, 2}}, {ifs: []int{1}, qual: true}, {ifs: []int{0}, pp: true},
 	{ifs: []int{1}, pp: true}, {ifs: []int{2}, pp: true}, {ifs: []int{3}, pp: true},
+	{ifs: []int{0}}, {ifs: []int{0}, prim: true}, // 26, 27: the function-local twins (same package path and type name)
 }
 
 var namePool = []string{"a", "b", "c", "d", "e", "f", "ga", "gz", "h", "k", "la", "lz", "m", "n", "p", "q", "s", "t", "u", "w", "x", "y", "za", "zz"}
@@ -87,7 +88,7 @@ func (g *gBuilder) nameOf(i int) string {
 func (g *gBuilder) randType(pred func(utInfo) bool) int {
 	for tries := 0; tries < 200; tries++ {
 		t := g.r.Intn(universeTypeCount)
-		if t == 14 || t == 19 || t == 23 || t == 24 || t == 25 {
+		if t == 14 || t == 19 || t == 23 || t == 24 || t == 25 || t == 26 || t == 27 {
 			continue // the priority post-processor types are only added on purpose (at most one per scenario)
 		}
 		if pred == nil || pred(utInfos[t]) {
@@ -602,6 +603,35 @@ func genAbsentPrefix(r *hx.Rng) *gScen {
 	return g.sc
 }
 
+// the function-local twins (two different Go types printing the same package path and name), one Primary and one not, as
+// candidates of single-valued and slice points; both always custom-named (their default names would collide)
+func genTwins(r *hx.Rng) *gScen {
+	g := newBuilder(r)
+	order := r.Intn(2)
+	var a, b int
+	if order == 0 {
+		a, b = g.addNode(26, false), g.addNode(27, false)
+	} else {
+		b, a = g.addNode(27, false), g.addNode(26, false)
+	}
+	_, _ = a, b
+	for i := 0; i < r.Intn(3); i++ {
+		g.addNode(g.randType(func(u utInfo) bool { return len(u.ifs) > 0 && !u.pp && !u.prim }), true)
+	}
+	nh := 1 + r.Intn(2)
+	for j := 0; j < nh; j++ {
+		h := g.addNode(g.randType(func(u utInfo) bool { return !u.pp }), r.P(1, 2))
+		g.sc.nodes[h].slots["X0"] = "w"
+		if r.P(1, 2) {
+			g.sc.nodes[h].slots["S0"] = "w"
+		}
+		if r.P(1, 3) {
+			g.sc.nodes[h].slots["X0b"] = "w" + g.nameOf(a)
+		}
+	}
+	return g.sc
+}
+
 // every point optional: qualifiers that match nothing although candidates of the type exist, names that are absent or of
 // another type, func tags nobody exposes, self-only points, array points — none of it may fail the start
 func genAllOptional(r *hx.Rng) *gScen {
@@ -1066,6 +1096,9 @@ func graphCorpus(w *hx.Writer) {
 		emitGraph(genSelf(r.Fork()), []string{"corpus", "self"}, w)
 		emitGraph(genArrayCycle(r.Fork()), []string{"corpus", "arraycycle"}, w)
 		emitGraph(genAllOptional(r.Fork()), []string{"corpus", "alloptional"}, w)
+		if i < 8 {
+			emitGraph(genTwins(r.Fork()), []string{"corpus", "twins"}, w)
+		}
 		if i < 10 {
 			emitGraph(genAbsentPrefix(r.Fork()), []string{"corpus", "absentprefix"}, w)
 		}
